@@ -456,6 +456,7 @@ class RangeAnalysis:
                     out.append((lo, hi, 'T', 0))
             return AV(out, 1).compact()
         rc = r.const_value()
+        lc = l.const_value()
         if op == 'BitAnd' and rc is not None:
             return self.mask(l, rc)
         lc = l.const_value()
@@ -463,6 +464,18 @@ class RangeAnalysis:
             return self.mask(r, lc)
         if op == 'Shr' and rc is not None:
             return self.blockwise(l, 1 << rc, lambda v: v >> rc, bits)
+        if op == 'BitOr' and (rc is not None or lc is not None):
+            v, k = (l, rc) if rc is not None else (r, lc)
+            out = []
+            low = (k & -k) if k else (1 << bits)
+            for lo, hi, kk, a in v.pieces:
+                if kk == 'c':
+                    out.append((lo, hi, 'c', a | k))
+                elif kk == 'x' and hi + a < low and lo + a >= 0:
+                    out.append((lo, hi, 'x', a + k))      # no bit overlap: OR is addition
+                else:
+                    out.append((lo, hi, 'T', 0))
+            return AV(out, bits).compact()
         if op in ('Mul', 'Shl', 'BitOr', 'BitXor', 'Div', 'Rem') and lc is not None and rc is not None:
             f = {'Mul': lambda a, b: a * b, 'Shl': lambda a, b: a << b, 'BitOr': lambda a, b: a | b,
                  'BitXor': lambda a, b: a ^ b, 'Div': lambda a, b: a // b if b else 0, 'Rem': lambda a, b: a % b if b else 0}[op]
@@ -490,6 +503,10 @@ class RangeAnalysis:
                     break
         if ok_ident:
             return v
+        # low mask 2^k - 1: value mod 2^k, piecewise affine
+        if m and (m & (m + 1)) == 0:
+            w = wrap_pieces(v.pieces, m.bit_length())
+            return AV(w, bits).compact() if w is not None else self.top(bits)
         # high mask: ones then zeros -> constant on aligned blocks of size 2^tz
         if m == 0:
             return AV.const(0, bits, self.N)
